@@ -33,6 +33,7 @@ import (
 	govtypes "github.com/cosmos/cosmos-sdk/x/gov/types"
 	govv1 "github.com/cosmos/cosmos-sdk/x/gov/types/v1"
 	minttypes "github.com/cosmos/cosmos-sdk/x/mint/types"
+	stakingtypes "github.com/cosmos/cosmos-sdk/x/staking/types"
 
 	"github.com/medibloc/panacea-core/v2/app"
 	burntypes "github.com/medibloc/panacea-core/v2/x/burn/types"
@@ -75,6 +76,9 @@ type GenesisOpts struct {
 	NoFastNode  bool              `json:"nofast"` // the operator's --iavl-disable-fastnode
 	StopAfterBlock1 bool          `json:"-"`         // node-level runs: return right after the commit of block 1 (no block 2 begun, no restart done)
 	AbsGen      M                 `json:"absgen"`    // an abstract genesis value of spec/GenesisMC.tla for the three custom modules
+	PrevRelease bool              `json:"prev"`      // SDK-module state as the previous release's upgrade handler (v2.2.0) left it: staking MinCommissionRate = 3% while
+	                                                 // validators created before that still have lower rates (and max rates / change rates that forbid raising them)
+	Bulk        int               `json:"bulk"`      // this many filler entries in the DID registry (genesis), sorting before every DID of the dictionary
 	Gov         bool              `json:"gov"`       // short governance voting period, 1umed deposit, and a funded (untracked) proposer account
 	LegacyDid   bool              `json:"legacydid"` // genesis holds a registry entry under key dc whose document describes d1 (pre-binding chains)
 }
@@ -283,6 +287,12 @@ func (c *Chain) buildGenesis() (json.RawMessage, error) {
 	if err != nil {
 		return nil, err
 	}
+	if c.Opts.PrevRelease {
+		var sg stakingtypes.GenesisState
+		cdc.MustUnmarshalJSON(gs[stakingtypes.ModuleName], &sg)
+		sg.Params.MinCommissionRate = sdk.NewDecWithPrec(3, 2)
+		gs[stakingtypes.ModuleName] = cdc.MustMarshalJSON(&sg)
+	}
 	if c.Opts.Gov {
 		var gg govv1.GenesisState
 		cdc.MustUnmarshalJSON(gs[govtypes.ModuleName], &gg)
@@ -314,6 +324,17 @@ func (c *Chain) buildGenesis() (json.RawMessage, error) {
 		if err := c.concGenesis(c.Opts.AbsGen, gs); err != nil {
 			return nil, err
 		}
+	}
+	if c.Opts.Bulk > 0 {
+		var dg didtypes.GenesisState
+		cdc.MustUnmarshalJSON(gs[didtypes.ModuleName], &dg)
+		if dg.Documents == nil {
+			dg.Documents = map[string]*didtypes.DIDDocumentWithSeq{}
+		}
+		for i := 0; i < c.Opts.Bulk; i++ {
+			dg.Documents[didtypes.GenesisDIDDocumentKey{DID: fillerDID(i)}.Marshal()] = fillerDoc(i)
+		}
+		gs[didtypes.ModuleName] = cdc.MustMarshalJSON(&dg)
 	}
 	for mod, js := range c.Opts.CustomGen {
 		gs[mod] = json.RawMessage(js)
@@ -402,15 +423,24 @@ var msgIdxRe = regexp.MustCompile(`message index: (\d+)`)
 
 // BuildTx builds and signs a transaction. signers[i] is the account whose *key* signs slot i
 // (slot i belongs to required[i]); an entry "" means: sign with a throw-away key.
-func (c *Chain) BuildTx(msgs []sdk.Msg, required []*Acct, signKeys []cryptotypes.PrivKey, feeUmed int64, mode signing.SignMode) ([]byte, error) {
+func (c *Chain) BuildTx(msgs []sdk.Msg, required []*Acct, signKeys []cryptotypes.PrivKey, feeUmed int64, mode signing.SignMode, extraFee ...sdk.Coin) ([]byte, error) {
 	txCfg := c.App.TxConfig()
 	b := txCfg.NewTxBuilder()
 	if err := b.SetMsgs(msgs...); err != nil {
 		return nil, err
 	}
 	b.SetGasLimit(5_000_000)
+	feeCoins := sdk.NewCoins()
 	if feeUmed > 0 {
-		b.SetFeeAmount(sdk.NewCoins(sdk.NewInt64Coin("umed", feeUmed)))
+		feeCoins = feeCoins.Add(sdk.NewInt64Coin("umed", feeUmed))
+	}
+	for _, co := range extraFee {
+		if co.IsPositive() {
+			feeCoins = feeCoins.Add(co)
+		}
+	}
+	if !feeCoins.IsZero() {
+		b.SetFeeAmount(feeCoins)
 	}
 	ctx := c.Ctx()
 	type sd struct {
